@@ -440,9 +440,54 @@ fn main() {
 
     ctx.run_prop_with("build-sapling", move || gen::arb_case(max_n, Engine::Build), tier.pick(5_000, 300_000), 600, check_case);
     ctx.run_prop_with("build-pczt", move || gen::arb_case(max_n, Engine::Pczt), tier.pick(5_000, 300_000), 600, check_case);
+    // generator health (fractions: the quotas differ between tiers)
+    for (sub, label, frac) in [
+        ("build-sapling", "ok", 0.25),
+        ("build-sapling", "ok:two-or-more-pools", 0.10),
+        ("build-sapling", "ok:two-or-more-signatures-verified", 0.07),
+        ("build-sapling", "ok:sapling-content", 0.12),
+        ("build-sapling", "ok:512-byte-memo-decrypted", 0.03),
+        ("build-sapling", "ok:ovk-recovery", 0.06),
+        ("build-sapling", "ok:proposed-version", 0.06),
+        ("build-sapling", "one-zat-from-balance", 0.15),
+        ("build-sapling", "err:insufficient-funds", 0.10),
+        ("build-sapling", "err:change-required", 0.10),
+        ("build-sapling", "err:missing-transparent-key", 0.01),
+        ("build-sapling", "err:missing-sapling-key", 0.004),
+        ("build-sapling", "err:target-incompatible", 0.002),
+        ("build-sapling", "propose-rejected", 0.02),
+        ("build-pczt", "ok", 0.20),
+        ("build-pczt", "ok:two-or-more-pools", 0.12),
+        ("build-pczt", "ok:three-or-more-pools", 0.05),
+        ("build-pczt", "ok:orchard-content", 0.08),
+        ("build-pczt", "ok:orchard-cross-address-disabled", 0.04),
+        ("build-pczt", "ok:ironwood-content", 0.05),
+        ("build-pczt", "ok:orchard-explicit-padding", 0.06),
+        ("build-pczt", "ok:ironwood-explicit-padding", 0.03),
+        ("build-pczt", "ok:padding-observed", 0.12),
+        ("build-pczt", "ok:512-byte-memo-decrypted", 0.05),
+        ("build-pczt", "ok:ovk-recovery", 0.08),
+        ("build-pczt", "one-zat-from-balance", 0.15),
+        ("build-pczt", "err:insufficient-funds", 0.10),
+        ("build-pczt", "err:change-required", 0.10),
+        ("build-pczt", "err:target-incompatible", 0.02),
+        ("build-pczt", "err:pczt-requires-zip212", 0.04),
+        ("build-pczt", "propose-rejected", 0.04),
+    ] {
+        ctx.require_label_fraction(sub, label, frac);
+    }
+    for sub in ["build-sapling", "build-pczt"] {
+        for l in ["branch:overwinter", "branch:sapling", "branch:blossom", "branch:heartwood", "branch:canopy", "branch:nu5", "branch:nu6", "branch:nu6.1", "branch:nu6.2", "branch:nu6.3", "rule:fixed", "rule:zip317-non-standard", "version:v4", "version:v5", "version:v6"] {
+            ctx.require_label_fraction(sub, l, 0.008);
+        }
+    }
     let prove_cases: u64 = std::env::var("C14_PROVE").ok().and_then(|s| s.parse().ok()).unwrap_or(tier.pick(0, 64));
     if prove_cases > 0 {
         ctx.run_prop_with("build-prove", move || gen::arb_case(2, Engine::Prove), prove_cases, 24, check_case);
+        if prove_cases >= 32 {
+            ctx.require_label_fraction("build-prove", "ok:orchard-content", 0.15);
+            ctx.require_label_fraction("build-prove", "ok:ironwood-content", 0.08);
+        }
     }
     ctx.finish();
 }
